@@ -37,7 +37,8 @@ from pyteal.ir.labelref import LabelReference  # noqa: E402
 import gen  # noqa: E402
 import recipes  # noqa: E402
 
-KEY_INDEX = "C12-index-over-255"
+# `C12-index-over-255` (an `intc 256` for more than 256 repeated constants) was repaired by commit 2a27358 of
+# pyteal/compiler/constants.py; a block index above 255 is a plain violation now (no key)
 OPS_BY_NAME = {str(o): o for o in Op}
 CONST_OPS = ("int", "byte", "addr", "method")
 
@@ -578,7 +579,7 @@ class Run:
         self.dist = Counter()
         self.samples = []
         self.mismatches = 0
-        self.known_seen = 0
+        self.index_over = 0
         self.exec_stats = Counter()
 
     # -- one component list: real vs model, then the oracle on the real output
@@ -619,8 +620,8 @@ class Run:
         if verdict == "bad":
             self.rep.violation(f"createConstantBlocks changes a constant: {detail}", replay)
         elif verdict == "index":
-            self.known_seen += 1
-            self.rep.violation(f"createConstantBlocks emits a block index > 255: {detail}", replay, key=KEY_INDEX)
+            self.index_over += 1
+            self.rep.violation(f"createConstantBlocks emits a block index > 255: {detail}", replay)
         if not same(real, model):
             self.mismatches += 1
             what = f"real createConstantBlocks and the Lean model disagree ({tag}): " + describe_diff(real, model)
@@ -671,8 +672,8 @@ class Run:
         if verdict == "bad":
             self.rep.violation(f"assembleConstants=True changes a constant (v{version}): {detail}", replay)
         elif verdict == "index":
-            self.known_seen += 1
-            self.rep.violation(f"assembleConstants=True emits a block index > 255 (v{version}): {detail}", replay, key=KEY_INDEX)
+            self.index_over += 1
+            self.rep.violation(f"assembleConstants=True emits a block index > 255 (v{version}): {detail}", replay)
         ok_model = model[0] == "ok" and [typed(c) for c in model[1]] == [typed(c) for c in real_out] and model[2] == body and "\n".join(model[2]) == body_text and npragma >= 1
         if not ok_model:
             self.mismatches += 1
@@ -727,7 +728,22 @@ def describe_diff(real, model):
     return "?"
 
 
-CEX = [("op", "int", [1000 + i]) for i in range(257)] * 2  # = PyTealV.Proofs.C12.cexOps
+# regression input of the retired finding C12-index-over-255 (= PyTealV.Proofs.C12.cexOps): 257 distinct integers,
+# each loaded twice; before commit 2a27358 line 257 of the output was `intc 256 // 1256`
+CEX = [("op", "int", [1000 + i]) for i in range(257)] * 2
+# the same for the byte block, with unequal frequencies (the three-fold ones sort first): 300 distinct values
+CEX_BYTES = [("op", "byte", ["0x%04x" % i]) for i in range(300)] * 2 + [("op", "byte", ["0x%04x" % i]) for i in range(280, 300)]
+
+
+def block_lines_ok(lines):
+    """at most 256 entries in each declared block, no `intc`/`bytec` immediate above 255 (text level, independent of the oracle)"""
+    for ln in lines:
+        w = ln.split(" ")
+        if w[0] in ("intcblock", "bytecblock") and len(w) - 1 > 256:
+            return f"`{w[0]}` with {len(w) - 1} entries"
+        if w[0] in ("intc", "bytec") and len(w) > 1 and w[1].isdigit() and int(w[1]) > 255:
+            return f"`{w[0]} {w[1]}`"
+    return None
 
 
 def literal_fuzz(run, r, n):
@@ -780,13 +796,23 @@ def run(tier: str) -> int:
     # passes at the default limit (a separate, known defect); the limit is raised for this process only
     sys.setrecursionlimit(max(sys.getrecursionlimit(), 20000))
 
-    # 1. the Lean counterexample, replayed on the real code (known finding)
+    # 1. regression: the input of the retired finding (theorem index_fits_regression) replayed on the real code.
+    #    An index above 255 or a block of more than 256 entries coming back is a violation (no key).
+    for name, cex in (("int", CEX), ("byte", CEX_BYTES)):
+        real = real_ccb(cex)
+        bad = block_lines_ok(real[2]) if real[0] == "ok" else "raises " + real[1]
+        if bad:
+            rep.violation(f"regression of 2a27358 (more than 256 repeated {name} constants): createConstantBlocks emits {bad}",
+                          {"kind": "oplist", "tag": "regression-" + name, "comps": [list(c) for c in cex]})
+        R.check_oplist(cex, "regression-over-256-" + name)
     real = real_ccb(CEX)
-    if real[0] == "ok" and len(real[2]) > 257 and real[2][257] == "intc 256 // 1256":
-        rep.notes.append("index_fits_counterexample reproduces on the real createConstantBlocks: line 257 is `intc 256 // 1256`")
-    else:
-        rep.notes.append("index_fits_counterexample does NOT reproduce on the real code any more")
-    R.check_oplist(CEX, "lean-counterexample")
+    if real[0] == "ok" and len(real[2]) > 257:
+        rep.notes.append(f"regression input (257 distinct ints twice): block of {len(real[2][0].split(' ')) - 1} entries, line 256 is "
+                         f"`{real[2][256]}`, line 257 is `{real[2][257]}` (theorem index_fits_regression: `intc 255 // 1255`, `pushint 1256 // 1256`)")
+        if real[2][256] != "intc 255 // 1255" or real[2][257] != "pushint 1256 // 1256":
+            rep.violation("regression input of 2a27358: lines 256/257 are not `intc 255 // 1255` / `pushint 1256 // 1256` "
+                          "(theorem index_fits_regression)", {"kind": "oplist", "tag": "regression-int", "comps": [list(c) for c in CEX]},
+                          no_input=True)
 
     # 2. fixed corner cases
     r = rng("C12-fixed")
@@ -849,7 +875,7 @@ def run(tier: str) -> int:
             except RecursionError:
                 R.dist["gen-recursion"] += 1
     lap("generated programs")
-    # 300 distinct integers, each used twice, through compileTeal (the known finding at program level);
+    # 300 distinct integers, each used twice, through compileTeal (the retired finding at program level, kept as a regression case);
     # spread over six subroutines so that no routine is deep enough to hit the compiler's recursion limit
     def big300():
         subs = []
@@ -863,8 +889,12 @@ def run(tier: str) -> int:
         return pt.Seq(*[f() for f in subs], pt.Return(pt.Int(1)))
     res = R.check_program(big300, "app", 8, "300x2", rctx, nctx=1)
     if res and "asm" in res:
-        hit = [l for l in res["asm"].split("\n") if l.startswith("intc 256 ")]
-        rep.notes.append("300 distinct ints used twice through compileTeal(v8): " + (f"`{hit[0]}` emitted" if hit else "no `intc 256`"))
+        bad = block_lines_ok(res["asm"].split("\n"))
+        npush = sum(1 for l in res["asm"].split("\n") if l.startswith("pushint "))
+        rep.notes.append("300 distinct ints used twice through compileTeal(v8): " + (f"{bad} emitted" if bad else f"no index above 255, {npush} `pushint` lines"))
+        if bad:
+            rep.violation(f"regression of 2a27358: compileTeal(assembleConstants=True) emits {bad}", {"kind": "program", "tag": "300x2", "mode": "app",
+                          "version": 8, "plain": res["plain"], "asm": res["asm"]})
 
     lap("300x2")
     # 6. option plumbing: version 2 must refuse (pushint/pushbytes are version-3 opcodes)
@@ -890,7 +920,7 @@ def run(tier: str) -> int:
         "pairs_validated_by_checkAssembled": R.oracle.tv_ok,
         "execution": dict(R.exec_stats),
         "model_mismatches": R.mismatches,
-        "known_finding_instances": R.known_seen,
+        "index_over_255_instances": R.index_over,
     })
     rep.assumptions += [
         "quoted literals containing \\N{...} are outside the model (reported as UNMODELLED, never produced by PyTeal)",
